@@ -340,7 +340,8 @@ pub fn run(rep: &mut Report) {
         non-trivial = some key is not already a plain relative path or a glob is configured; raw path-operation, \
         glob and is_covered cases are non-trivial when they contain . / .. / // segments, a wildcard, or two functions"
         .to_string();
-    let mut rng = Rng::new(rep.seed ^ 0xC11);
+    // corrlib's Rng::new is linear in the seed (seed+2 is the same stream two draws later): hash it first
+    let mut rng = Rng::new(fnv64(&(rep.seed ^ 0xC11).to_le_bytes()));
     path_ops(rep, &mut rng);
     glob_ops(rep, &mut rng);
     covered_ops(rep, &mut rng);
